@@ -278,7 +278,7 @@ func TestVerif_Schedules(t *testing.T) {
 	r := vkit.Start(t, "C20", "schedules", "exploration", rule)
 	r.Assume("event times are distinct (closes at integer ms, cancellation at x.25 ms, settle expiry at x.5 ms) so that the model has no ties", "the context is not cancelled before the call")
 	r.Require("wait_calls")
-	n := vkit.N(3000, 200000)
+	n := vkit.N(100000, 1000000)
 	if part, idx, ok := vkit.ReplayCase(); ok {
 		if part == "schedules" {
 			runSchedule(r, t, idx)
